@@ -14,12 +14,12 @@ pub static DEF: CheckDef = CheckDef {
     id: "C18",
     run,
     replay,
-    rule: "the worker's real standard output (fd 1) is redirected to an in-memory file and read back after every case. (a) hand-assembled snippets that write arbitrary values to 0xFF01/0xFF02 through every store form (LDH (n),A; LD (C),A; LD (HL),r; LD (HL),n; LD (HL+),A; LD (nn),A; LD (nn),SP with nn = 0xFF01; PUSH with SP = 0xFF03) with all four combinations of bit 7 in two consecutive SC values and 64 data values each; (b) proptest programs from the C04 generator with extra serial fragments (interrupt handlers that transmit included), (c) the cache-pressure program of C04, which transmits while the translation area fills up, (d) proptest histories of direct writes to 0xFF01/0xFF02 through the bus, also with writes to the neighbouring registers 0xFF00/0xFF03/0xFF04 mixed in (they must not reach the data register). Each is run in three modes: interpreter build instruction-stepped, interpreter build block-stepped, jit build block-stepped. Oracle: the captured bytes must equal, exactly and in order, the value last written to 0xFF01 at the time of each write to 0xFF02 with bit 7 set, computed from the ordered bus-write trace; in every mode it must also equal the stream the reference CPU (models::sm83 + models::irq on a twin, stepped by instruction or by block like the mode) produces for the same program - bytes only the CPU's own stores to 0xFF01/0xFF02 can cause, which fixes the order of the two bytes of 16-bit stores and excludes output caused by anything else (a DMA running past OAM, for one); nothing else may appear on the stream; all three modes must produce the same stream. Non-trivial = case with at least two transmitting writes and at least one non-transmitting write to 0xFF02 or a write to 0xFF01 that is overwritten before being sent; distinct by hash of (case, mode).",
+    rule: "the worker's real standard output (fd 1) is redirected to an in-memory file and read back after every case. (a) hand-assembled snippets that write arbitrary values to 0xFF01/0xFF02 through every store form (LDH (n),A; LD (C),A; LD (HL),r; LD (HL),n; LD (HL+),A; LD (nn),A; LD (nn),SP with nn = 0xFF01; PUSH with SP = 0xFF03) with all four combinations of bit 7 in two consecutive SC values and 64 data values each; (b) proptest programs from the C04 generator with extra serial fragments (interrupt handlers that transmit included), (c) the cache-pressure programs of C04, which transmit while the translation area fills up and restarts - one of them switching banks, every bank transmitting its own byte -, plus C03's restart probe judged on the stream (the translation area filled to every level from 4 MiB up, then bank 1's blocks, which transmit bank 1's byte, entered - also at the address whose bank-2 block made the area restart), (d) proptest histories of direct writes to 0xFF01/0xFF02 through the bus, also with writes to the neighbouring registers 0xFF00/0xFF03/0xFF04 mixed in (they must not reach the data register). Each is run in three modes: interpreter build instruction-stepped, interpreter build block-stepped, jit build block-stepped. Oracle: the captured bytes must equal, exactly and in order, the value last written to 0xFF01 at the time of each write to 0xFF02 with bit 7 set, computed from the ordered bus-write trace; in every mode it must also equal the stream the reference CPU (models::sm83 + models::irq on a twin, stepped by instruction or by block like the mode) produces for the same program - bytes only the CPU's own stores to 0xFF01/0xFF02 can cause, which fixes the order of the two bytes of 16-bit stores and excludes output caused by anything else (a DMA running past OAM, for one); nothing else may appear on the stream; all three modes must produce the same stream. Non-trivial = case with at least two transmitting writes and at least one non-transmitting write to 0xFF02 or a write to 0xFF01 that is overwritten before being sent; distinct by hash of (case, mode).",
     assumptions: &[
         "the expected stream is a function of the machine's own ordered bus writes (hook); that those writes are the program's is C01/C04/C05's subject",
         "the loader's messages (printed before a ROM runs) are not part of the stream: machines are built with Core::from_rom_file",
     ],
-    required_classes: &["cache-pressure", "snippet", "program", "direct-history", "direct-history-with-neighbours", "mode-instruction", "mode-block-interpreter", "mode-block-jit", "two-sends-and-a-non-send", "push-onto-ff03", "isr-transmits"],
+    required_classes: &["cache-pressure", "snippet", "program", "direct-history", "direct-history-with-neighbours", "mode-instruction", "mode-block-interpreter", "mode-block-jit", "two-sends-and-a-non-send", "push-onto-ff03", "isr-transmits", "cache-pressure-banks-transmit", "restart-probe"],
     exhaustive: false,
 };
 
@@ -124,6 +124,8 @@ fn run_one(c: &Case, mode: u8, cap: &mut Capture) -> Result<(Vec<u8>, Vec<u8>, (
         Case::Pressure(op, _) => {
             if *op == 0xff {
                 crate::checks::c04::pressure_rom2()
+            } else if *op == 0xfe {
+                crate::checks::c04::pressure_rom4()
             } else {
                 crate::checks::c04::pressure_rom(*op)
             }
@@ -140,7 +142,7 @@ fn run_one(c: &Case, mode: u8, cap: &mut Capture) -> Result<(Vec<u8>, Vec<u8>, (
     // 0xFF01/0xFF02 and in which order - including the order of the two bytes of a
     // 16-bit store. Runs before the capture starts (the twin transmits too).
     let mut model_stream: Option<(Vec<u8>, bool)> = None;
-    if steps > 0 && !matches!(c, Case::Pressure(..)) {
+    if steps > 0 && !matches!(c, Case::Pressure(op, _) if *op != 0xfe) {
         let mut r = crate::refmach::RefMachine::new(i::M::new(&rom));
         let mut ws: Vec<(u16, u8)> = Vec::new();
         let mut complete = true;
@@ -316,11 +318,32 @@ fn run(rec: &mut Rec) {
     }
     // translation area filling up while the program transmits: nothing but the bytes may appear
     if my == 0 {
+        // ... and with bank switching, every bank transmitting its own byte: the stream shows
+        // whose code ran after the translation area restarted
+        let c = Case::Pressure(0xfe, rec.ctx.tier.pick(1000, 6000));
+        rec.current(&case_json(&c, 0).to_string());
+        rec.class("cache-pressure-banks-transmit", 1);
+        if let Err(f) = exec(&c, rec, true, &mut cap) {
+            rec.violation(&format!("{}-cache-pressure-banks", f.sig), case_json(&c, 0), f.detail);
+        }
         let c = Case::Pressure(0x27, rec.ctx.tier.pick(400, 4000));
         rec.current(&case_json(&c, 0).to_string());
         rec.class("cache-pressure", 1);
         if let Err(f) = exec(&c, rec, true, &mut cap) {
             rec.violation(&format!("{}-cache-pressure", f.sig), case_json(&c, 0), f.detail);
+        }
+    }
+    // C03's restart probe, judged on the serial stream: the blocks transmit their bank's byte
+    {
+        let step = rec.ctx.tier.pick(0x20000usize, 0x4000);
+        let mut k = 0usize;
+        let mut target = 0x400000usize;
+        while target < 0x7f0000 {
+            if k % workers == my && !rec.too_many() {
+                restart_probe_stream(rec, target);
+            }
+            k += 1;
+            target += step;
         }
     }
     // programs with extra serial traffic
@@ -391,7 +414,30 @@ fn run(rec: &mut Rec) {
     });
 }
 
+fn restart_probe_stream(rec: &mut Rec, target: usize) {
+    let case = json!({"kind": "serial", "mode": 2, "case": {"RestartProbe": target}});
+    rec.current(&case.to_string());
+    rec.eval(1);
+    rec.class("restart-probe", 1);
+    if let Ok(p) = crate::checks::c03::restart_probe(target) {
+        let mut pairs = vec![&p.largest];
+        if let Some(a) = &p.after_restart {
+            pairs.push(a);
+        }
+        for (oj, oi) in pairs {
+            if oj.serial != oi.serial || oi.serial != vec![0x31] {
+                rec.violation("restart-probe-stream", case.clone(), format!("bank 1's block transmits its byte 0x31 once; with {} bytes of the translation area in use the jit build transmitted {:02x?}, the interpreter build {:02x?}", p.level, oj.serial, oi.serial));
+                break;
+            }
+        }
+    }
+}
+
 fn replay(case: &Value, rec: &mut Rec) {
+    if let Some(t) = case.pointer("/case/RestartProbe").and_then(|v| v.as_u64()) {
+        restart_probe_stream(rec, (t as usize).min(0x7f0000));
+        return;
+    }
     let c: Case = match case.get("case").cloned().and_then(|v| serde_json::from_value(v).ok()) {
         Some(c) => c,
         None => {
